@@ -26,6 +26,32 @@ const GZ: [u8; 10] = [31, 139, 8, 0, 0, 0, 0, 0, 0, 255];
 /// a load that raises the peak RSS by more than this (kB) over the input size is class F25
 const ALLOC_LIMIT_KB: u64 = 32 * 1024;
 const SLOW_MS: u128 = 1500;
+/// a single allocation request above this (bytes) plus 64 times the input size, made while loading,
+/// is "allocating what a length prefix announces" whether or not the memory is ever touched
+const REQUEST_LIMIT: usize = 16 << 20;
+
+/// The allocator of this binary: the system allocator, remembering the largest single request.
+struct Counting;
+static MAX_REQUEST: std::sync::atomic::AtomicUsize = std::sync::atomic::AtomicUsize::new(0);
+unsafe impl std::alloc::GlobalAlloc for Counting {
+    unsafe fn alloc(&self, l: std::alloc::Layout) -> *mut u8 {
+        MAX_REQUEST.fetch_max(l.size(), std::sync::atomic::Ordering::Relaxed);
+        std::alloc::System.alloc(l)
+    }
+    unsafe fn alloc_zeroed(&self, l: std::alloc::Layout) -> *mut u8 {
+        MAX_REQUEST.fetch_max(l.size(), std::sync::atomic::Ordering::Relaxed);
+        std::alloc::System.alloc_zeroed(l)
+    }
+    unsafe fn dealloc(&self, p: *mut u8, l: std::alloc::Layout) {
+        std::alloc::System.dealloc(p, l)
+    }
+    unsafe fn realloc(&self, p: *mut u8, l: std::alloc::Layout, n: usize) -> *mut u8 {
+        MAX_REQUEST.fetch_max(n, std::sync::atomic::Ordering::Relaxed);
+        std::alloc::System.realloc(p, l, n)
+    }
+}
+#[global_allocator]
+static ALLOCATOR: Counting = Counting;
 
 fn base_lists(r: &mut Rng) -> Vec<Vec<String>> {
     let s = |v: &[&str]| v.iter().map(|x| x.to_string()).collect::<Vec<_>>();
@@ -80,6 +106,9 @@ struct Ctx {
     hwm_ok: bool,
     max_ms: u128,
     max_alloc_kb: u64,
+    max_request: usize,
+    request_hits: u64,
+    out: std::path::PathBuf,
 }
 #[derive(Default)]
 struct Tally {
@@ -107,6 +136,13 @@ fn attempt(cx: &mut Ctx, sm: &mut Summary, t: &mut Tally, bytes: &[u8], what: &s
     }
     sm.oracle_evaluations += 1;
     let replay = json!({"kind": "load", "bytes": hex(bytes), "what": what});
+    // an input with a 32-bit length prefix may make a decoder ask for more memory than the machine
+    // grants (the process aborts): leave the input behind for the check to report
+    let risky = bytes.iter().any(|b| matches!(b, 0xc6 | 0xc9 | 0xdb | 0xdd | 0xdf));
+    if risky {
+        crash_guard(&cx.out, "Engine::deserialize of this buffer", &replay);
+    }
+    MAX_REQUEST.store(0, std::sync::atomic::Ordering::Relaxed);
     // a first, stateless decode (also under test: must not panic)
     let class = {
         let b = bytes.to_vec();
@@ -129,6 +165,17 @@ fn attempt(cx: &mut Ctx, sm: &mut Summary, t: &mut Tally, bytes: &[u8], what: &s
     cx.max_ms = cx.max_ms.max(ms);
     if ms > 100 && std::env::var("C10_TRACE").is_ok() {
         eprintln!("slow load {} ms: {} len={} head={}", ms, what, bytes.len(), hex(&bytes[..bytes.len().min(16)]));
+    }
+    let req = MAX_REQUEST.load(std::sync::atomic::Ordering::Relaxed);
+    if risky {
+        crash_guard_clear(&cx.out);
+    }
+    cx.max_request = cx.max_request.max(req);
+    if req > REQUEST_LIMIT + 64 * bytes.len() {
+        cx.request_hits += 1;
+        if cx.request_hits <= 20 {
+            sm.failure(None, &format!("loading {} bytes made a single allocation request of {} bytes: the decoder asks for what a length prefix announces", bytes.len(), req), replay.clone());
+        }
     }
     let hwm = if cx.hwm_ok { vm_kb("VmHWM:") } else { 0 };
     let grown = hwm.saturating_sub(cx.hwm);
@@ -261,7 +308,7 @@ fn main() {
     let base_answers = answers(&pre, &qs);
     let base_bytes = pre.serialize_raw().unwrap();
     let hwm_ok = reset_hwm() && vm_kb("VmHWM:") > 0;
-    let mut cx = Ctx { alloc_hits: 0, guard: true, force: false, guarded: 0, guarded_run: 0, guarded_max: 0, pre, qs, base_answers, base_bytes, hwm: vm_kb("VmHWM:"), hwm_ok, max_ms: 0, max_alloc_kb: 0 };
+    let mut cx = Ctx { alloc_hits: 0, guard: true, force: false, guarded: 0, guarded_run: 0, guarded_max: 0, pre, qs, base_answers, base_bytes, hwm: vm_kb("VmHWM:"), hwm_ok, max_ms: 0, max_alloc_kb: 0, max_request: 0, request_hits: 0, out: a.out.clone() };
     let mut tally = Tally::default();
 
     if let Some(p) = &a.replay {
@@ -635,6 +682,8 @@ fn main() {
     sm.extra.insert("guarded_max_announced_bytes".into(), json!(cx.guarded_max));
     sm.extra.insert("max_case_ms".into(), json!(cx.max_ms as u64));
     sm.extra.insert("max_peak_rss_growth_kb".into(), json!(cx.max_alloc_kb));
+    sm.extra.insert("max_single_allocation_request_bytes".into(), json!(cx.max_request));
+    sm.extra.insert("loads_with_oversized_allocation_request".into(), json!(cx.request_hits));
     sm.extra.insert("peak_rss_probe_available".into(), json!(cx.hwm_ok));
     sm.extra.insert("header_cases_sampled_from_enumeration".into(), json!(sampled));
     sm.extra.insert("not_covered".into(), json!("no RLIMIT_AS (std only): allocation is observed through VmHWM growth per load and wall time per load; the announced-length probe uses 256 MiB, not 4 GiB; stack overflow on deeply nested input is not provoked beyond what the substitutions produce (rmp-serde limits depth to 1024)"));
